@@ -23,7 +23,7 @@ GENERIC = [
     'on_error::on_error', 'on_error::exit_on_error', 'on_error::get_last_error', 'on_error::get_last_error_line', 'on_error::get_last_error_source',
     'on_error::set_error', 'on_error::trigger_error', 'lib::command::remove', 'lib::alias::unset', 'flowcontrol::goto',
     'test::assert', 'test::assert_eq', 'test::assert_error', 'test::assert_fail', 'test::assert_false',
-    'collections::array', 'collections::map', 'collections::set',
+    'collections::array', 'collections::map', 'collections::set', 'collections::map_keys', 'collections::set_to_array', 'lib::alias::set', 'process::exit',
 ] + ['collections::%s' % c.split('::')[-1] for c in c12.CMD.values() if c.startswith('collections::')]
 
 
